@@ -18,6 +18,11 @@
               of the last update and cleared counters.  (A response that arrives after the
               group sent again counts as the response to the frame then on the wire: the
               "latest response".)
+     Restart  the group's task ended (cancelled, or died) and the same group - same devices,
+              same terminals - is started again.  That is a new run: cycles are counted from
+              one again, so the first frame and the first error count are free once more and
+              every later frame carries what the devices set in THIS run with cleared
+              counters.  The configuration may differ (the group may map its FMMUs elsewhere).
 
    Where a variable lives in a frame is NOT taken from the code under test: it follows from
    EtherCAT addressing and the configuration of the segment - station addresses and process
@@ -123,6 +128,9 @@ Receive(R) == /\ phase = "recv"
               /\ SameShape(frame, R)
               /\ resp' = R /\ phase' = "update"
               /\ UNCHANGED <<cfg, k, frame, errs, lastsets, base, wrong>>
+
+Restart(c) == /\ cfg' = c /\ phase' = "send" /\ k' = 0 /\ frame' = <<>> /\ resp' = <<>>
+              /\ errs' = 0 /\ lastsets' = <<>> /\ base' = 0 /\ wrong' = 0
 
 (* e = the error counter observed when the group gives up on the frame *)
 Lose(e) == /\ phase = "recv"
